@@ -13,7 +13,10 @@ Scenarios
   pychanged a specification whose `unsubscribe` performs a lookup while `changed()` iterates its bookkeeping
   midwalk   the registry's `_mappingType` (a documented extension point, e.g. a persistent mapping) runs code on `.get`:
             while the uncached lookup walks the candidates for the provided interface, the registration of the
-            candidate being visited is removed"""
+            candidate being visited is removed
+  shrink    between the uncached lookup's check of how many arities a registry holds and its fetch of that arity's
+            table, the last registration of the arity is removed (what a mutator thread can do at that point; injected
+            through the lookup object's extendors table, which is consulted in between)"""
 import gc
 import sys
 
@@ -245,6 +248,38 @@ def run(lines, out, args):
                             ep, k.__name__, first, old, new)
                     elif any(x != new for x in later):
                         got = "FAIL: after the mutation %s answers %r, the registry holds %r" % (ep, later, new)
+            elif scen == "shrink":
+                state = {"armed": False}
+                reg = mkreg(flavour, lambda kind, lk, compute: compute())
+                state["reg"] = reg
+                subs_ep = ep == "subscriptions"
+                if subs_ep:
+                    reg.subscribe((IR,), IP, fac1)
+                else:
+                    reg.register((IR,), IP, "", fac1)
+
+                class HookExt(dict):
+                    def get(self, k, d=None):
+                        if state["armed"]:
+                            state["armed"] = False
+                            if subs_ep:
+                                reg.unsubscribe((IR,), IP, fac1)
+                            else:
+                                reg.unregister((IR,), IP, "")
+                        return dict.get(self, k, d)
+                lk = reg._v_lookup
+                lk._extendors = HookExt(lk._extendors)
+                state["armed"] = True
+                first = ask(reg, ep, ob)
+                if state["armed"]:
+                    got = "FAIL: harness: the extendors hook never fired"
+                else:
+                    later = [ask(reg, ep, ob) for _ in range(2)]
+                    old, new = expect(ep, fac1), expect(ep, None)
+                    if first not in (old, new):
+                        got = "FAIL: the interrupted %s returned %r, neither the answer before (%r) nor after (%r) the removal" % (ep, first, old, new)
+                    elif any(x != new for x in later):
+                        got = "FAIL: after the removal %s answers %r, the registry holds nothing" % (ep, later)
             elif scen == "pychanged":
                 state = {}
 
